@@ -65,6 +65,8 @@ class C05(Hist1Prop):
     FIELDS = {"bins", "freq", "err2", "under", "over", "total", "dtype", "keep"}
 
     def fields_for(self, case):
+        if case.get("kind") == "histn":
+            return {"bins", "shape", "freq", "err2", "missed", "total", "dtype"}
         if "tiny_gap" in case.get("tags", []):
             return self.FIELDS - {"under", "over"}
         return self.FIELDS
@@ -88,6 +90,9 @@ class C05(Hist1Prop):
     def gen_case(self, rng, k, tier):
         if k % 8 == 5:
             return coll_parts.gen(rng)
+        if k % 4 == 2:
+            from . import nd_parts
+            return nd_parts.c05_gen(rng)
         adaptive = rng.random() < 0.35
         tags = []
         if adaptive:
@@ -179,6 +184,10 @@ class C05(Hist1Prop):
         if case.get("sub") == "coll":
             yield from coll_parts.shrink_candidates(case)
             return
+        if case.get("kind") == "histn":
+            from . import nd_parts
+            yield from nd_parts.c05_shrink(case)
+            return
         src = case["src"]
         for i in range(3):
             for j in range(len(src["sets"][i])):
@@ -191,6 +200,9 @@ class C05(Hist1Prop):
     def oracle(self, case, io):
         if case.get("sub") == "coll":
             return coll_parts.oracle(case, io)
+        if case.get("kind") == "histn":
+            from . import nd_parts
+            return nd_parts.c05_oracle(case, io)
         outs, ops = io["outs"], case["ops"]
         fails = []
         src = case["src"]
@@ -259,6 +271,8 @@ class C05(Hist1Prop):
     def nontrivial(self, case, io):
         if case.get("sub") == "coll":
             return coll_parts.nontrivial(case, io)
+        if case.get("kind") == "histn":
+            return len(case["src"]["sets"][0]) > 0 and len(case["src"]["sets"][1]) > 0
         s = case["src"]["sets"]
         return len(s[0]) > 0 and len(s[1]) > 0
 
